@@ -1361,6 +1361,12 @@ impl<'t> World<'t> {
                     if cat == Cat::Ctor {
                         self.eval(Prop::C07, "c07.reissue-identical", fp, call.op as u64, nt);
                         let same = std::ptr::eq(re0, re1) && re0 == re1;
+                        if foreign_since > 2 {
+                            self.sample(format!(
+                                "re-issued {} after {} terms of other clients were created: again {} (pointer-identical: {})",
+                                call.op.name(), foreign_since, show(re1), std::ptr::eq(re0, re1)
+                            ));
+                        }
                         self.judge(Prop::C07, "c07.reissue-identical", same, || {
                             format!(
                                 "the same constructor {} applied to the same arguments first returned {} and now returns {} (ptr_eq={}, eq={})",
